@@ -196,10 +196,18 @@ Proof.
 Qed.
 
 (* ---- A. a doubled control code counts once ------------------------------------------------------ *)
+(* every control code type (command incl. backspace, preamble code, special, extended) is doubled, whatever the
+   state; the state argument is kept for the callers *)
 Definition doubled_type (s : rstate) (w : Z) : bool :=
-  (negb (w =? w_bs) && is_command w) || is_pac w
+  is_command w || is_pac w
   || (match special_of w with Some _ => true | None => false end)
-  || (r_dstart s && ((match extended_of w with Some _ => true | None => false end) || (w =? w_bs))).
+  || (match extended_of w with Some _ => true | None => false end).
+
+Theorem doubling_unconditional : forall s w,
+  doubled_type s w = (is_command w || is_pac w
+                      || (match special_of w with Some _ => true | None => false end)
+                      || (match extended_of w with Some _ => true | None => false end)).
+Proof. reflexivity. Qed.
 
 Lemma handle_double_second : forall s w, r_last s = LWord w -> doubled_type s w = true ->
   handle_double s w = (true, set_dbl s LNone (if is_cue_start w then true else r_dstart s)).
@@ -529,6 +537,27 @@ Proof.
     unfold content. cbn [cr_nodes]. fold (ncontent (upd_prev_text drop_last (cr_nodes c))).
     fold (ncontent (cr_nodes c)). rewrite H3, H1. unfold drop_last. symmetry. apply removelast_app. exact H2.
   - unfold content. fold (ncontent (cr_nodes c)). rewrite P. reflexivity.
+Qed.
+
+(* doubling_once instantiated: a doubled backspace after a SINGLE resume-caption-loading command (double_starter is
+   false) erases exactly ONE character: 94ae 9420 9440 "ab" 94a1 94a1 leaves "a" *)
+Example doubled_backspace_after_single_rcl :
+  let s := translate_words (set_clock (rstate0 0) (lit "00:00:01:00") 0) [w_enm; w_rcl; 37952; 24930] in
+  let s1 := translate_word s w_bs (Some w_bs) in
+  r_err s = None /\ r_dstart s = false /\ fst (handle_double s w_bs) = false /\ tab_of w_bs = None /\
+  r_err s1 = None /\ doubled_type s1 w_bs = true /\
+  content (buf s) = [97; 98] /\ content (buf s1) = [97] /\
+  translate_word s1 w_bs None = bump (set_dbl s1 LNone (if is_cue_start w_bs then true else r_dstart s1)) /\
+  content (buf (translate_word s1 w_bs None)) = [97].
+Proof.
+  intros s s1.
+  assert (He : r_err s = None) by (vm_compute; reflexivity).
+  assert (Hd : fst (handle_double s w_bs) = false) by (vm_compute; reflexivity).
+  assert (Ht : tab_of w_bs = None) by (vm_compute; reflexivity).
+  assert (He1 : r_err s1 = None) by (vm_compute; reflexivity).
+  assert (Hty : doubled_type s1 w_bs = true) by (vm_compute; reflexivity).
+  pose proof (doubling_once s w_bs (Some w_bs) None He Hd Ht He1 Hty) as H. fold s1 in H.
+  repeat split; try assumption; try exact H; vm_compute; reflexivity.
 Qed.
 
 (* the two statements below were given without wf_nodes; they fail when a non-text node carries text *)
